@@ -34,7 +34,7 @@ CHECKS = {
         design_ref='6/C18'),
     'C12': dict(
         engine='ServerStop',
-        technique='TLA+ spec ServerStop.tla (parent-side terminate(timeout=5, force) with its join time-out, the SIGTERM handler that kills `children` but not the contexts, the `finally` loop with its 1 s waits and forced kills, the context helper\'s own clean-up racing with the server\'s 1 s join, a worker start-up in progress) model-checked with TLC over every configuration of 0-4 children in 10 states x {terminate, SIGTERM, terminate with a short time-out whose SIGTERM lands inside the finally loop} x 4 start-up phases; TLC-enumerated configurations are built on a real server and stopped; /proc is scanned for former descendants (found by an environment tag, so re-parented orphans count) and the parent-side accessors are read with hang bounds; TLC judges every real execution (ServerJudge) and the real outcome is compared with the model outcome',
+        technique='TLA+ spec ServerStop.tla (parent-side terminate(timeout=5, force) with its join time-out, the SIGTERM handler that kills `children` but not the contexts, the `finally` loop with its 1 s waits and forced kills, the context helper\'s own clean-up racing with the server\'s 1 s join, a worker start-up in progress) model-checked with TLC over every configuration of 0-4 children in 11 states x {terminate, SIGTERM, terminate with a short time-out whose SIGTERM lands inside the finally loop} x 4 start-up phases; TLC-enumerated configurations are built on a real server and stopped; /proc is scanned for former descendants (found by an environment tag, so re-parented orphans count) and the parent-side accessors are read with hang bounds; TLC judges every real execution (ServerJudge) and the real outcome is compared with the model outcome',
         text='Exhaustive TLC model checking (invariants Reaped / ParentsKnow / ErrorKind / NoParentBlock at every terminal state over all 75k configurations and all interleavings of time-outs, kills and clean-ups; liveness Reaped for <= 3 children) of the proposed algorithm; the algorithm as written is rejected (a context helper killed in the middle of its clean-up). 26 (300) configurations chosen from TLC\'s enumeration for balanced coverage are built on real servers, stopped with terminate() or SIGTERM (also while a scripted client is in the middle of the handshake), and observed: server gone, no former descendant left 3 s later, wait()/is_alive()/has_error/error of every parent-side worker with hang bounds.',
         note='Trusted: TLC, /proc, the time abstraction of the model (a cooperative process that got the termination request exits before a 1 s time-out fires; the parent\'s 5 s join expires after 4 waited-out processes). The parent side of a start-up that races with the stop belongs to C20: the racing worker is a scripted client and only its reaping is judged. Real configurations are a selected sample of the enumerated space.',
         design_ref='6/C12'),
@@ -237,7 +237,7 @@ def c11_signature(rec, clauses):
     else:
         effect = 'disturbed'
     return 'C11|req=%s|step=%s%s|mode=%s|effect=%s%s' % (f['req'], f['step'], '+split' if f.get('split') else '', f['mode'], effect,
-                                                         '|close_on_none' if rec.get('con') else '')
+                                                         ('|close_on_none' if rec.get('con') else '') + ('|cli' if rec.get('cli') else ''))
 
 
 def c11_summary(rec):
@@ -255,7 +255,7 @@ def run_c11(tier, replay):
 
     if replay is not None:
         streams, pos, lens = record(logdir)
-        rec = R.scenario_c11(dict(id='replay', faults=replay['replay']['faults'], con=replay['replay'].get('con', False), streams=streams, pos=pos, logdir=logdir))
+        rec = R.scenario_c11(dict(id='replay', faults=replay['replay']['faults'], con=replay['replay'].get('con', False), cli=replay['replay'].get('cli', False), streams=streams, pos=pos, logdir=logdir))
         fails, _ = tlc.judge('ServerJudge', [rec], name='replay')
         print('replayed:', json.dumps({'scn': rec['scn'], 'obs': rec['obs'], 'notes': rec['notes']}))
         for _, clause in fails:
@@ -333,7 +333,9 @@ def run_c11(tier, replay):
     box = {}
 
     def mk_tasks(lst, off):
-        return [dict(id='s%d' % (off + i), faults=f, con=c11_con(f, off + i), streams=streams, pos=pos, logdir=logdir) for i, f in enumerate(lst)]
+        # every 8th scenario runs against a server started the documented command-line way (python -m pyworkers.remote_server)
+        return [dict(id='s%d' % (off + i), faults=f, con=c11_con(f, off + i), cli=((off + i) % 8 == 3), streams=streams, pos=pos, logdir=logdir)
+                for i, f in enumerate(lst)]
 
     def replay_all():
         try:
@@ -445,9 +447,13 @@ def run_c11(tier, replay):
                     ('; server log: ' + x['notes']['server_error']) if x['notes'].get('server_error') else ''))
         if x.get('con'):
             what += ' [server configured with close_on_none=True]'
-        violations.append(Violation('C11', sig, what, {'kind': 'C11', 'faults': x['faults_full'], 'con': bool(x.get('con'))}))
+        if x.get('cli'):
+            what += ' [server started as `python -m pyworkers.remote_server`]'
+        if not x['faults_full']:
+            what = what.replace('faulty client(s) ;', 'NO faulty client: the set-up of the healthy clients already failed;')
+        violations.append(Violation('C11', sig, what, {'kind': 'C11', 'faults': x['faults_full'], 'con': bool(x.get('con')), 'cli': bool(x.get('cli'))}))
 
-    violations = confirm(ev, 'C11', violations, lambda rp, i: dict(id=i, faults=rp['faults'], con=rp.get('con', False), streams=streams, pos=pos, logdir=logdir),
+    violations = confirm(ev, 'C11', violations, lambda rp, i: dict(id=i, faults=rp['faults'], con=rp.get('con', False), cli=rp.get('cli', False), streams=streams, pos=pos, logdir=logdir),
                          'scenario_c11', c11_signature, logdir)
     unconf = set(u['signature'] for u in ev.cov.get('unconfirmed_rejections', []))
 
@@ -494,6 +500,7 @@ def run_c11(tier, replay):
     ev.assumptions += ['client writes are atomic up to the client\'s next read (TCP buffers them); payloads are opaque to the model',
                        'FIN = close() of a socket without unread data, RST = SO_LINGER 0 + close(); loopback only',
                        'the healthy party of every scenario: a persistent worker, a one-shot worker in the middle of its target, and a context (the one faulty worker-in-context and duplicate-create requests name) with a worker in it; afterwards each must answer with its own work and a NEW worker in that context must be accepted',
+                       'every 8th scenario starts its server the documented command-line way (`python -m pyworkers.remote_server --addr .. --port ..` as a plain subprocess) instead of spawn_server()',
                        'both server configurations are exercised: close_on_none=False (spawn_server default) and True (run_server / --close_on_none); no scenario sends a None request',
                        'time-outs in the proposed algorithm only fire for clients that are gone (a well-behaved client connects the control channel in time)',
                        'sequences of >= 2 faulty clients are sampled (seeded), not exhaustive; model NF<=2 exhaustive (NF=3 core plans in the thorough tier)',
@@ -507,10 +514,10 @@ REAL_PATIENCE = 4      # busy workers a context helper waits out (1 s each) befo
 
 
 def _ctx_cfg(ids, maxlen, maxw, hist='FALSE', pop='TRUE', dup='TRUE', inv=(), spec=True, patience=1, hk='TRUE', profile='free',
-             alias='FALSE', shutfirst='FALSE'):
+             alias='FALSE', shutfirst='FALSE', cutdel='FALSE'):
     s = ('SPECIFICATION Spec\n' if spec else 'INIT Init\nNEXT Next\n')
-    s += ('CONSTANTS\n  Ids <- %s\n  MaxLen = %d\n  MaxW = %d\n  Hist = %s\n  PopOnDelete = %s\n  DupCheck = %s\n  Patience = %d\n  HandlerKills = %s\n  Profile = "%s"\n  AliasDefaults = %s\n  ShutdownFirst = %s\n'
-          % (ids, maxlen, maxw, hist, pop, dup, patience, hk, profile, alias, shutfirst))
+    s += ('CONSTANTS\n  Ids <- %s\n  MaxLen = %d\n  MaxW = %d\n  Hist = %s\n  PopOnDelete = %s\n  DupCheck = %s\n  Patience = %d\n  HandlerKills = %s\n  Profile = "%s"\n  AliasDefaults = %s\n  ShutdownFirst = %s\n  CutDeletes = %s\n'
+          % (ids, maxlen, maxw, hist, pop, dup, patience, hk, profile, alias, shutfirst, cutdel))
     for i in inv:
         s += 'INVARIANT %s\n' % i
     return s + 'CHECK_DEADLOCK FALSE\n'
@@ -525,7 +532,7 @@ def c18_features(hist, reps):
     f = set()
     dup_ids, deleted, started_in = set(), set(), {}
     registered = set()
-    busy, busy_ctx, kw = set(), {}, set()
+    busy, busy_ctx, kw, cutids = set(), {}, set(), set()
     prev = None
     for n, (q, a) in enumerate(zip(hist, reps)):
         op = q['op']
@@ -587,6 +594,14 @@ def c18_features(hist, reps):
                 kw.add(q['w'])
         elif op == 'rstart':
             f.add('rstart-unknown' if q['k'] == 'F' else 'rstart-known')
+        elif op == 'cut':
+            f.add('cut-known' if q['k'] == 'T' else 'cut-unknown')
+            if q['k'] == 'T':
+                cutids.add(q['id'])
+        if op in ('start', 'create', 'delete') and q['id'] in cutids:
+            f.add('use-after-cut')
+        if op in ('call', 'callk') and a.startswith('v:') and started_in.get(q['w']) in cutids:
+            f.add('call-after-cut')
         if op == 'call' and a.startswith('v:') and q['w'] in kw:
             f.add('plain-call-after-keyword')
         if op == 'delete' and q['k'] == 'T':
@@ -620,7 +635,8 @@ def c18_select(paths, k, rng):
         count.update(feats[best])
     # request shapes the client API never produces by itself are always played, several times
     for must, times in (('first-delete-unknown', 3), ('delete-unknown-after-dup', 3), ('start-in-deleted', 2), ('delete-with-busy', 2),
-                        ('plain-call-after-keyword', 4), ('rstart-unknown', 4), ('rstart-known', 1)):
+                        ('plain-call-after-keyword', 4), ('rstart-unknown', 4), ('rstart-known', 1),
+                        ('use-after-cut', 4), ('call-after-cut', 2)):
         for i, fs in enumerate(feats):
             if count[must] >= times:
                 break
@@ -679,10 +695,12 @@ def run_c18(tier, replay):
     # 0. the design (concurrently): refinement of the dictionary model over every history; record operators
     #    on every short history; witnesses; mutant algorithms rejected
     wit = ['W_NoDuplicate', 'W_NoOrphan', 'W_NoReuse', 'W_NoUnknownStart', 'W_NoUnknownDelete', 'W_NoDeleteWithWorkers',
-           'W_NoCallAfterDup', 'W_NoTwoContexts', 'W_NoForcedDelete', 'W_NoBusyRegular', 'W_NoPlainAfterKeyword', 'W_NoResetUnknown']
+           'W_NoCallAfterDup', 'W_NoTwoContexts', 'W_NoForcedDelete', 'W_NoBusyRegular', 'W_NoPlainAfterKeyword', 'W_NoResetUnknown', 'W_NoCutKnown']
     design = Jobs()
-    big = ('Ids3', 8, 3) if tier == 'thorough' else ('Ids3', 7, 2)
+    big = ('Ids3', 8, 3) if tier == 'thorough' else ('Ids3', 6, 2)
     design.start('mc', lambda: tlc.run('ServerCtxMC', cfg_text=_ctx_cfg(*big, inv=C18_REF), workers=8, name='ctxmc', timeout=3000))
+    if tier != 'thorough':
+        design.start('mc2ids', lambda: tlc.run('ServerCtxMC', cfg_text=_ctx_cfg('Ids2', 7, 2, inv=C18_REF), workers=6, name='ctxmc2', timeout=3000))
     design.start('hist', lambda: tlc.run('ServerCtxMC', 'ServerCtx_hist.cfg', workers=4, name='ctxhist', timeout=1500))
     # forced delete path (two busy workers against an abstract patience of 1) with the record operators
     design.start('hist6', lambda: tlc.run('ServerCtxMC', cfg_text=_ctx_cfg('Ids1', 7, 3, hist='TRUE', inv=C18_REF + C18_REC), workers=2,
@@ -694,7 +712,8 @@ def run_c18(tier, replay):
                                   for m, ids_, len_, kw in (('no_pop', 'Ids2', 5, {'pop': 'FALSE'}), ('no_dupcheck', 'Ids2', 5, {'dup': 'FALSE'}),
                                                             ('handler_kills_nothing', 'Ids1', 6, {'hk': 'FALSE'}),
                                                             ('keyword_sticks_to_later_inputs', 'Ids1', 5, {'alias': 'TRUE'}),
-                                                            ('shutdown_before_close_of_reset_client', 'Ids1', 3, {'shutfirst': 'TRUE'}))})
+                                                            ('shutdown_before_close_of_reset_client', 'Ids1', 3, {'shutfirst': 'TRUE'}),
+                                                            ('dropped_context_request_deletes', 'Ids1', 4, {'cutdel': 'TRUE'}))})
 
     # 1. TLC generates the histories (simulation: length 8, 3 ids, 3 workers; the record operators are
     #    evaluated on every simulated state); the tap records the bytes of a worker-in-context request
@@ -748,6 +767,11 @@ def run_c18(tier, replay):
     ev.add_tlc('exhaustive: every history of length <= %d over %s with <= %d workers; refinement of the dictionary model' % (big[1], big[0], big[2]), r)
     if r.error:
         raise MachineryError('ServerCtx.tla violates its refinement invariants: %s\n%s' % (r.error, '\n'.join(r.trace[:80])))
+    if tier != 'thorough':
+        r2 = dres['mc2ids']
+        ev.add_tlc('exhaustive: every history of length <= 7 over Ids2 with <= 2 workers; refinement of the dictionary model', r2)
+        if r2.error:
+            raise MachineryError('ServerCtx.tla violates its refinement invariants: %s\n%s' % (r2.error, '\n'.join(r2.trace[:80])))
     r = dres['hist']
     ev.add_tlc('exhaustive with history: record operators C18_* on every history of length <= 5 over 2 ids', r)
     if r.error:
@@ -843,9 +867,9 @@ def run_c18(tier, replay):
 
 # ----------------------------------------------------------------------------- C12
 
-def _stop_cfg(maxkids, racers='Racers_all', ctxterm='TRUE', inv=(), prop=None, dupterm=None, pkill=None, clearfirst='FALSE', narrow='FALSE', states='States_all', noack='FALSE'):
-    s = ('SPECIFICATION Spec\nCONSTANTS\n  MaxKids = %d\n  KidStates <- %s\n  Racers <- %s\n  CtxTerm = %s\n  DupTerm = %s\n  ParentKill = %s\n  ClearFirst = %s\n  NarrowExcept = %s\n  NoAckWait = %s\n'
-         % (maxkids, states, racers, ctxterm, dupterm or ctxterm, pkill or dupterm or ctxterm, clearfirst, narrow, noack))
+def _stop_cfg(maxkids, racers='Racers_all', ctxterm='TRUE', inv=(), prop=None, dupterm=None, pkill=None, clearfirst='FALSE', narrow='FALSE', states='States_all', noack='FALSE', cachedead='FALSE'):
+    s = ('SPECIFICATION Spec\nCONSTANTS\n  MaxKids = %d\n  KidStates <- %s\n  Racers <- %s\n  CtxTerm = %s\n  DupTerm = %s\n  ParentKill = %s\n  ClearFirst = %s\n  NarrowExcept = %s\n  NoAckWait = %s\n  CacheDead = %s\n'
+         % (maxkids, states, racers, ctxterm, dupterm or ctxterm, pkill or dupterm or ctxterm, clearfirst, narrow, noack, cachedead))
     for i in inv:
         s += 'INVARIANT %s\n' % i
     if prop:
@@ -920,7 +944,8 @@ def c12_select(confs, k, rng):
     # orphan helper after the one SIGTERM was used up) are always exercised
     for must, times in ((('inctx-swallow', 'terminate'), 1), (('orphan+racer', 'addr', 'terminate'), 1), (('two-swallow-in-ctx', 'terminate'), 1),
                         ('tshort-mix', 2), ('tshort-swallow-first', 2), (('swallow', 'tshort'), 3),
-                        (('swallow-gone', 'terminate'), 2), (('client-gone-mix', 'terminate'), 1), (('coop-gone', 'terminate'), 1)):
+                        (('swallow-gone', 'terminate'), 2), (('client-gone-mix', 'terminate'), 1), (('coop-gone', 'terminate'), 1),
+                        (('swallow-t', 'terminate'), 2), (('swallow-t', 'sigterm'), 2), (('swallow-t', 'tshort'), 1)):
         for i, f in enumerate(fs):
             if count[must] >= times:
                 break
@@ -982,6 +1007,8 @@ def run_c12(tier, replay):
     design.start('prefix', lambda: {v: tlc.run('ServerStopMC', cfg_text=_stop_cfg(2, 'Racers_all', v[0], inv=C12_INV, prop='Live_Reaped', dupterm=v[1], pkill=v[2]),
                                                workers=1, name='stopprefix%s%s%s' % v, must_complete=False, timeout=600)
                                     for v in (('FALSE', 'FALSE', 'FALSE'), ('FALSE', 'TRUE', 'TRUE'), ('TRUE', 'FALSE', 'FALSE'))})
+    design.start('cachedead', lambda: tlc.run('ServerStopMC', cfg_text=_stop_cfg(1, 'Racers_none', 'TRUE', inv=C12_INV, prop='Live_Reaped', cachedead='TRUE'),
+                                              workers=1, name='stopcachedead', must_complete=False, timeout=600))
     design.start('noack', lambda: tlc.run('ServerStopMC', cfg_text=_stop_cfg(1, 'Racers_all', 'TRUE', inv=C12_INV, prop='Live_Reaped', noack='TRUE'),
                                           workers=1, name='stopnoack', must_complete=False, timeout=600))
     design.start('narrow', lambda: tlc.run('ServerStopMC', cfg_text=_stop_cfg(2, 'Racers_all', 'TRUE', inv=C12_INV, prop='Live_Reaped', narrow='TRUE'),
@@ -1027,10 +1054,10 @@ def run_c12(tier, replay):
     # 2. collect the design runs
     dres = design.wait()
     r = dres['mc']
-    ev.add_tlc('exhaustive: 0..%d children x 10 states x {terminate, sigterm, tshort} x 4 start-up phases (proposed algorithm)' % (4 if tier == 'thorough' else 3), r)
+    ev.add_tlc('exhaustive: 0..%d children x 11 states x {terminate, sigterm, tshort} x 4 start-up phases (proposed algorithm)' % (4 if tier == 'thorough' else 3), r)
     if tier != 'thorough':
         r4 = dres['mc4']
-        ev.add_tlc('exhaustive: 0..4 children x 10 states x {terminate, sigterm, tshort}, no racing start-up (proposed algorithm)', r4)
+        ev.add_tlc('exhaustive: 0..4 children x 11 states x {terminate, sigterm, tshort}, no racing start-up (proposed algorithm)', r4)
         if r4.error:
             raise MachineryError('ServerStop.tla violates its own properties: %s\n%s' % (r4.error, '\n'.join(r4.trace[:80])))
     if r.error:
@@ -1051,6 +1078,9 @@ def run_c12(tier, replay):
     if not (dres['clearfirst'].error or '').startswith(('invariant:', 'temporal')):
         raise MachineryError('the mutant algorithm ClearFirst (finally clears `children` before reaping) is not rejected by the model checker')
     ev.cov['prefix_models_rejected']['ClearFirst=TRUE (mutant)'] = dres['clearfirst'].error
+    if not (dres['cachedead'].error or '').startswith(('invariant:', 'temporal')):
+        raise MachineryError('the mutant algorithm CacheDead (server-side worker marks itself dead after a failed terminate) is not rejected by the model checker')
+    ev.cov['prefix_models_rejected']['CacheDead=TRUE (mutant)'] = dres['cachedead'].error
     if not (dres['noack'].error or '').startswith(('invariant:', 'temporal')):
         raise MachineryError('the mutant algorithm NoAckWait (half-started backend does not wait for the acknowledgement) is not rejected by the model checker')
     ev.cov['prefix_models_rejected']['NoAckWait=TRUE (mutant)'] = dres['noack'].error
